@@ -303,3 +303,23 @@ Theorem mc_identity : forall a b c d : C,
               mc_settings)
   = m2 a b c d.
 Proof. intros. rewrite (mc_group (fun p => pairing 1 (m2 a b c d) (pmat p))). apply wirecut_id. Qed.
+
+Lemma wirecut_prepare_form : forall a b c d : C,
+  oscale 1 chalf
+    (osum 1 (map (fun p => oscale 1 (pairing 1 (m2 a b c d) (pmat p))
+                                  (osum 1 (map (fun s => oscale 1 (cob p s) (pstate s)) preps))) paulis))
+  = m2 a b c d.
+Proof.
+  intros.
+  transitivity (oscale 1 chalf (osum 1 (map (fun p => oscale 1 (pairing 1 (m2 a b c d) (pmat p)) (pmat p)) paulis)));
+    [|apply wirecut_id].
+  apply (f_equal (oscale 1 chalf)). apply (f_equal (osum 1)). apply map_ext; intro p.
+  rewrite <- prepare_resolution. reflexivity.
+Qed.
+
+Lemma k_cuts_trace : forall k (rho M : Op k), reconstruct k rho M = otr k (omul k rho M).
+Proof. intros. rewrite otr_omul. apply reconstruct_pairing. Qed.
+Lemma prepare_settings_ok : forall s,
+  density (run_prep (prep_ops s)) = pstate s
+  /\ otr 1 (pstate s) = c1 /\ oadj 1 (pstate s) = pstate s /\ omul 1 (pstate s) (pstate s) = pstate s.
+Proof. intro s; split; [apply prep_circuits | apply pstate_trace1_herm]. Qed.
